@@ -2,7 +2,7 @@
 //! Each fusion gets two templates over the same builder: one varying the
 //! constant holes, one varying the structural holes.
 
-use crate::c01::{Axis, Built, Template, ax};
+use crate::c01::{Axis, Built, Template, ax, ax2};
 use crate::patterns::*;
 use crate::prog::{AttrV, Dt};
 
@@ -195,8 +195,8 @@ fn ln_consts(thorough: bool) -> Template {
     let data = norm_data(thorough);
     let nd = data.len();
     let axes: Vec<Axis> = vec![
-        ax("epsilon const shape", CS_N, true),
-        ax("pow const shape", CS_N, true),
+        ax2("epsilon const shape", CS_N),
+        ax2("pow const shape", CS_N),
         ax("pow const value", 2, true),
         ax("bias", 2, true),
         ax("operand order", 8, true),
@@ -238,8 +238,8 @@ fn rms_consts(thorough: bool) -> Template {
     let data = norm_data(thorough);
     let nd = data.len();
     let axes: Vec<Axis> = vec![
-        ax("epsilon const shape", CS_N, true),
-        ax("pow const shape", CS_N, true),
+        ax2("epsilon const shape", CS_N),
+        ax2("pow const shape", CS_N),
         ax("pow const value", 2, true),
         ax("operand order", 8, true),
         ax("bracketing", 3, true),
